@@ -32,6 +32,8 @@ type titleDoc struct {
 	TitleInBody   bool // the <title> element ends up in the body
 	SVGTitle      bool // an inline <svg> with a <title> child precedes the content
 	OptOut        bool // the page carries the IE_RM_OFF tag: MarkupInfo supplies nothing
+	TitleAttr     string // attributes written on the <title> element (it is never displayed anyway)
+	H1Noscript    int    // 1, 2: the first <h1> carries a <noscript> image fallback before / after its text
 	Spec          string
 }
 
@@ -44,7 +46,7 @@ func (td *titleDoc) build(extraBlock string) string {
 		// the <title> is not where it belongs: written in the body, or pushed there by stray content in front of the head
 		sb.WriteString("<html><head>")
 	} else {
-		sb.WriteString("<html><head><title>" + td.TitleHTML + "</title>")
+		sb.WriteString("<html><head><title" + td.TitleAttr + ">" + td.TitleHTML + "</title>")
 	}
 	if td.OptOut {
 		sb.WriteString(`<meta name="IE_RM_OFF" content="true">`)
@@ -61,7 +63,7 @@ func (td *titleDoc) build(extraBlock string) string {
 		sb.WriteString(`<template><title>{{ page.title }} decoy words here</title><h1>{{ item.heading }} of the template</h1></template>`)
 	}
 	if td.TitleInBody && !(td.TitleHTML == "" && td.SVGTitle) {
-		sb.WriteString("<title>" + td.TitleHTML + "</title>")
+		sb.WriteString("<title" + td.TitleAttr + ">" + td.TitleHTML + "</title>")
 	}
 	if td.SVGTitle {
 		sb.WriteString(`<svg width="20" height="20"><title>s1v s2v s3v s4v</title><circle r="5"></circle></svg>`)
@@ -70,7 +72,14 @@ func (td *titleDoc) build(extraBlock string) string {
 		sb.WriteString(`<div itemscope itemtype="http://schema.org/Article"><meta itemprop="headline" content="` + td.Markup + `"></div>`)
 	}
 	if td.H1 != "" {
-		sb.WriteString("<h1>" + entityBack.Replace(td.H1) + "</h1>")
+		switch td.H1Noscript {
+		case 1: // a lazily loaded logo with its fallback for readers without scripting
+			sb.WriteString(`<h1><img class="lazy" data-src="/logo.png" alt=""><noscript><img src="/logo.png" alt=""></noscript> ` + entityBack.Replace(td.H1) + "</h1>")
+		case 2:
+			sb.WriteString("<h1>" + entityBack.Replace(td.H1) + ` <noscript><img src="/pixel.gif" alt=""></noscript></h1>`)
+		default:
+			sb.WriteString("<h1>" + entityBack.Replace(td.H1) + "</h1>")
+		}
 	}
 	sb.WriteString("<p>" + bodyWords("a", 60) + "</p>")
 	if td.H2 != "" {
@@ -190,6 +199,12 @@ func genTitle(r *RNG) *titleDoc {
 		td.MarkupSrc, td.Markup = "ie", pad(mk("MI", 1+r.Intn(6)))
 	}
 	td.OptOut = td.MarkupSrc != "" && r.Intn(6) == 0
+	if r.Intn(10) == 0 {
+		td.TitleAttr = []string{" hidden", ` style="display:none"`, ` aria-hidden="true"`, ` style="visibility:hidden"`, ` id="page-title"`}[r.Intn(5)]
+	}
+	if td.H1 != "" && r.Intn(5) == 0 {
+		td.H1Noscript = 1 + r.Intn(2)
+	}
 	td.Spec = fmt.Sprintf("parts=%d sep=%v h1=%v h2=%v markup=%s optout=%v len=%d", nparts, td.HasSep, td.H1 != "", td.H2 != "", td.MarkupSrc, td.OptOut, utf8.RuneCountInString(td.T0))
 	return td
 }
